@@ -115,6 +115,7 @@ def shrink(exe, engines, fail, workdir, budget=120):
         while i < last and tries < budget:
             rm = {j for j in range(i, min(i + chunk, last))
                   if insns[j][0] != "label" and "fuel" not in insns[j][1:]
+                  and not any(isinstance(a, str) and a[:2] == "sn" and a[2:].isdigit() for a in insns[j][1:])
                   and not (insns[j][0] in ("ext32", "uext32") and insns[j][1] == insns[j][2])}
             changed = True
             while changed:   # keep glued units together (S-op + ext, overflow op + bo)
@@ -191,7 +192,7 @@ def shrink_text(exe, engines, text, plan, entry, workdir, kind="engines-differ",
         t = l.split()
         if not t or l.endswith(":"):
             return True
-        if "fuel" in l:
+        if "fuel" in l or " sn0" in l or " sn1" in l:
             return True
         if t[0] in ("ext32", "uext32") and len(t) == 3 and t[1].rstrip(",") == t[2]:
             return True
